@@ -12,7 +12,9 @@ Open Scope string_scope.
 Record obs := { ob_ok : bool;            (* result status = SUCCESS *)
                 ob_reason : string;      (* result reason name, "" on success *)
                 ob_msg : string;         (* result message, "" when absent *)
-                ob_ids : list string }.  (* Locate: identifiers listed; creators: identifiers issued; else [] *)
+                ob_ids : list string;    (* Locate: identifiers listed; creators: identifiers issued; else [] *)
+                ob_partial : bool }.     (* Locate with offset / maximum items: the answer is a part of the candidates
+                                            (which part is C14's business; here: nothing outside the candidates) *)
 
 Definition guard_text (s : site) : list string :=
   match s with SLoad _ (GMaskNotFound m) _ => [m] | _ => [] end.
@@ -33,7 +35,7 @@ Definition out_match (o : outcome) (b : obs) : bool :=
   | ODenied m => negb (ob_ok b) && String.eqb (ob_reason b) "PERMISSION_DENIED" && String.eqb (ob_msg b) m
   | ONotFound m => negb (ob_ok b) && String.eqb (ob_reason b) "ITEM_NOT_FOUND" && String.eqb (ob_msg b) m
   | OPreFail | OPostFail | OMidFail => negb (ob_ok b) && negb (access_refusal_text (ob_msg b))
-  | OSuccess ids => ob_ok b && same_set ids (ob_ids b)
+  | OSuccess ids => ob_ok b && (if ob_partial b then subset (ob_ids b) ids else same_set ids (ob_ids b))
   | OUnsupported | OStuck => false
   end.
 
